@@ -22,6 +22,9 @@ WORKSPACE = ["nitrogql_", "graphql_loader", "sourcemap_writer", "graphql_type_sy
 OTP = ["nitrogql_printer::operation_type_printer", "nitrogql_printer::ts_types"]
 # helper modules shared by several printers: a function of these is in a property's scope only when the property's own code reaches it
 SHARED = ["nitrogql_printer::utils"]
+# the properties about printed types and runtime documents; for the others (CLI behaviour, loader tasks, ...) a memo inside a printer
+# helper changes *what* is printed, which is not their subject
+SHARED_USERS = {"C01", "C02", "C09", "C10", "C12", "C14"}
 SCOPES = {
     "C01": (OTP, "the Result type printed for one selection set is computed from another's"),
     "C02": (OTP, "the Result type printed for one selection set is computed from another's"),
@@ -78,7 +81,7 @@ def state_rules(P, R, prop):
     prefixes, what = SCOPES[prop]
     own = [f for p, f in P.fns.items() if not f.derived and "::tests" not in p and any(p.startswith(x) or p.startswith("<" + x) for x in prefixes)]
     allow = set()
-    if not any(any(x.startswith(sh) or sh.startswith(x) for x in prefixes) for sh in SHARED):
+    if prop in SHARED_USERS and not any(any(x.startswith(sh) or sh.startswith(x) for x in prefixes) for sh in SHARED):
         try:
             allow = {p for p in P.reachable(own) if any(p.startswith(sh) for sh in SHARED)}
         except Exception:
